@@ -109,7 +109,7 @@ fn answer_inner(req: &str) -> String {
                 },
             }
         }
-        "SPEC" if parts.len() >= 4 && parts[1] == "int" => {
+        "SPEC" if parts.len() >= 4 && (parts[1] == "int" || parts[1] == "str") => {
             let vals: Option<Vec<Val>> = parts[3..].iter().map(|s| read_val(s)).collect();
             match vals {
                 None => "bad-val".into(),
@@ -359,14 +359,19 @@ pub fn gen_str<W: Write>(w: &mut W, tier: &str, seed: u64) {
         for op in ["len", "asc", "val", "str"] {
             emit(w, "K", &format!("OP {} {}", op, t));
         }
+        emit(w, "F", &format!("SPEC str len {}", t));
         for &p in POSN {
             emit(w, "K", &format!("OP left {} {}", t, pv(p)));
             emit(w, "K", &format!("OP right {} {}", t, pv(p)));
             emit(w, "K", &format!("OP mid {} {}", t, pv(p)));
+            emit(w, "F", &format!("SPEC str left {} {}", t, pv(p)));
+            emit(w, "F", &format!("SPEC str right {} {}", t, pv(p)));
+            emit(w, "F", &format!("SPEC str mid {} {}", t, pv(p)));
             emit(w, "K", &format!("OP string {} {}", pv(p), t));
             if s.chars().count() < 40 {
                 for &l in POSN {
                     emit(w, "K", &format!("OP mid {} {} {}", t, pv(p), pv(l)));
+                    emit(w, "F", &format!("SPEC str mid {} {} {}", t, pv(p), pv(l)));
                 }
             }
         }
@@ -378,8 +383,10 @@ pub fn gen_str<W: Write>(w: &mut W, tier: &str, seed: u64) {
         for p in STRS {
             let (ts, tp) = (format!("T{}", hex(s)), format!("T{}", hex(p)));
             emit(w, "K", &format!("OP instr {} {}", ts, tp));
+            emit(w, "F", &format!("SPEC str instr {} {}", ts, tp));
             for &st in &[-1i32, 0, 1, 2, 3, 4, 6, 7, 8, 255, 256] {
                 emit(w, "K", &format!("OP instr {} {} {}", pv(st), ts, tp));
+                emit(w, "F", &format!("SPEC str instr {} {} {}", pv(st), ts, tp));
             }
         }
     }
@@ -419,14 +426,15 @@ pub fn gen_str<W: Write>(w: &mut W, tier: &str, seed: u64) {
         let p = *rng.pick(POSN).min(&12);
         let l = *rng.pick(POSN).min(&12);
         match rng.below(6) {
-            0 => emit(w, "K", &format!("OP left {} {}", t, pv(p))),
-            1 => emit(w, "K", &format!("OP right {} {}", t, pv(p))),
-            2 => emit(w, "K", &format!("OP mid {} {} {}", t, pv(p), pv(l))),
-            3 => emit(w, "K", &format!("OP mid {} {}", t, pv(p))),
+            0 => { emit(w, "K", &format!("OP left {} {}", t, pv(p))); emit(w, "F", &format!("SPEC str left {} {}", t, pv(p))) }
+            1 => { emit(w, "K", &format!("OP right {} {}", t, pv(p))); emit(w, "F", &format!("SPEC str right {} {}", t, pv(p))) }
+            2 => { emit(w, "K", &format!("OP mid {} {} {}", t, pv(p), pv(l))); emit(w, "F", &format!("SPEC str mid {} {} {}", t, pv(p), pv(l))) }
+            3 => { emit(w, "K", &format!("OP mid {} {}", t, pv(p))); emit(w, "F", &format!("SPEC str mid {} {}", t, pv(p))) }
             _ => {
                 let plen = rng.below(3);
                 let pat: String = (0..plen).map(|_| *rng.pick(&alphabet)).collect();
                 emit(w, "K", &format!("OP instr {} {} T{}", pv(p), t, hex(&pat)));
+                emit(w, "F", &format!("SPEC str instr {} {} T{}", pv(p), t, hex(&pat)));
             }
         }
     }
